@@ -160,6 +160,13 @@ def fam_control():
         ("ctl:fn-branch-assign-as-argument", "functie g(a, b) { a * 10 + b }; functie f(n) { stel x = 0; g(als n < %s { x = 4 } anders { x = 6 }, x) }; [f(%s), f(0)]" % (H0, H1)),
         ("ctl:top-branch-ends-in-global-assign", "stel x = 1; stel y = als %s < %s { x = x + 5 } anders { x += 1 }; [x, y]" % (H0, H1)),
     ]
+    # (5d) an `als` with an empty branch as a NON-last statement of a block whose value is used while operands are pending
+    out += [
+        ("ctl:nonlast-if-empty-branch-in-list", "[1, als %s < %s { als %s < 5 { } anders { 7; }; 2 } anders { als ja { }; 4 }, 3]" % (H0, H1, H0)),
+        ("ctl:nonlast-if-empty-branch-in-sum", "10 + als ja { als %s < %s { 1; } anders { }; 5 }" % (H0, H1)),
+        ("ctl:nonlast-if-empty-branch-in-fn", "functie f(n) { als n < %s { } anders { n = n + 1; }; als n > 100 { }; n * 2 }; [f(%s), f(0), f(200)]" % (H0, H1)),
+        ("ctl:nonlast-if-empty-branch-in-loop-then-call", "functie d(x) { x * 2 }; stel e = 0; stel i = 0; zolang i < %s { i += 1; als i > 1 { } anders { e += 1; }; e += 10; }; [d(21), e, i]" % H0),
+    ]
     # (6) while / if used as values and as arguments
     out += [
         ("ctl:if-as-arg", "functie f(a, b) { a - b }; f(als %s < %s { 1 } anders { 2 }, als %s < %s { 10 })" % (H0, H1, H1, H2)),
@@ -193,6 +200,9 @@ def fam_calls():
         ("call:empty-body-with-params", 'functie log(bericht, niveau) { }; stel t = 0; log("start", t); log(1, 2); t = t + 3; [t, log(%s, 0)]' % H0),
         ("call:params-only-no-locals", "functie kies(a, b, c) { b }; functie niets(a) { {} }; [kies(1, %s, 3), niets(%s), kies(niets(0), 2, 3)]" % (H0, H1)),
         ("call:locals-only-in-inner-block", "functie f(a) { { stel x = a + 1; { stel y = x * 2; a = y; }; }; a }; f(%s)" % H0),
+        ("call:builtin-args-order", 'stel t = 0; functie n() { t = t + 1; t }; print("{} {} {}", n(), n(), n()); print("{}-{}", n(), [n(), n()]); [t, lengte([n(), n()])]'),
+        ("call:builtin-args-order-nested", 'functie meld(x) { print("meld {}", x); x * 10 }; functie paar(a, b) { [a, b] }; print("{} en {}", meld(1), paar(meld(2), meld(3))); string(meld(4))'),
+        ("call:builtin-arg-fails-after-effect", 'stel t = 0; functie n() { t = t + 1; print(t); t }; print("{} {}", n(), [1][n() + %s])' % H0),
         ("call:args-order", 'functie f(a, b, c) { a * 100 + b * 10 + c }; stel t = 0; functie n() { t = t + 1; t }; f(n(), n(), n())'),
         ("call:positional", "functie f(a, b, c, d) { [d, c, b, a] }; f(%s, %s, %s, 4)" % (H0, H1, H2)),
         ("call:locals-padded", "functie f(a) { stel b = a + 1; stel c = b + 1; stel d = c + 1; [a, b, c, d] }; f(%s)" % H0),
@@ -232,8 +242,27 @@ def fam_calls():
 
 
 # ------------------------------------------------------------------ C09: scoping
+def scope_pairing():
+    """every container block x every inner construct whose body may be EMPTY: the container declares a name that shadows an
+    outer one, the inner construct follows, and the name is read after the container - the outer variable must be back, and a
+    name declared only inside must be gone (ReferenceError for the whole program)"""
+    inner = [("empty-if", "als v > 0 { };"), ("empty-else", "als v > 100 { v = v + 1; } anders { };"), ("empty-loop", "zolang nee { };"),
+             ("empty-fn", "functie leeg() { }; leeg();"), ("empty-block", "{ };"), ("nested-empty", "{ { }; als ja { } anders { }; };"),
+             ("if-with-decl", "als v > 0 { stel w = v; v = w + 1; };"), ("empty-if-then-decl", "als ja { }; stel w = 3; v = v + w;")]
+    containers = [("block", "{ stel v = 5; %s r = v; }"), ("if-branch", "als %s < %s { stel v = 5; %%s r = v; }" % (H0, H1)),
+                  ("else-branch", "als %s < %s { r = 0; } anders { stel v = 5; %%s r = v; }" % (H0, H1)),
+                  ("loop-body", "stel k = 0; zolang k < 2 { k += 1; stel v = 5 + k; %s r = v; }"),
+                  ("fn-body", "functie f() { stel v = 5; %s r = v; v }; f()")]
+    out = []
+    for cn, c in containers:
+        for inn, body in inner:
+            out.append(("scope:pairing:%s:%s" % (cn, inn), "stel v = %s; stel r = 0; %s; [v, r]" % (H1, c % body)))
+            out.append(("scope:pairing-gone:%s:%s" % (cn, inn), 'print("begin"); stel r = 0; %s; [r, v]' % (c % body)))
+    return out
+
+
 def fam_scoping():
-    out = [
+    out = scope_pairing() + [
         # a NAMED function declared in a block / branch / loop body is a declaration of that block: it ends with the block and
         # does not disturb an outer variable of the same name (blocks with and without a `stel` of their own)
         ("scope:named-fn-in-branch-ends-with-it", "als %s < %s { functie dubbel(n) { n * 2 }; dubbel(1); }; dubbel(2)" % (H0, H1)),
@@ -440,6 +469,12 @@ def fam_boundary():
         ("bnd:call-literal", "1(2)"),
         ("bnd:empty", ""),
         ("bnd:only-comment", "// niets"),
+        # more than 256 operands pending at once in one activation (long literals, long argument lists, deep right-nesting)
+        ("bnd:array-literal-270", "stel a = [" + ", ".join(str(i) for i in range(270)) + "]; [lengte(a), a[%s], a[269]]" % H0),
+        ("bnd:array-literal-270-in-call", "functie f(x, l) { [x, lengte(l), l[0 - 1]] }; f(%s, [" % H0 + ", ".join(str(i % 7) for i in range(270)) + "])"),
+        ("bnd:call-200-args", "functie f(" + ", ".join("p%d" % i for i in range(200)) + ") { p0 + p199 }; 5 + f(" + ", ".join([H0] + [str(i) for i in range(1, 200)]) + ")"),
+        ("bnd:right-nested-arith-260", "stel x = %s; " % H0 + "1 + (" * 260 + "x" + ")" * 260),
+        ("bnd:nested-pending-array-call", "functie f(a, b) { a + b }; [1, 2, [3, 4, f(5, [" + ", ".join("0" for _ in range(260)) + "][%s])]]" % H0),
         ("bnd:empty-fn", "functie f() { }; f()"),
         ("bnd:empty-fn-with-params", 'print("a"); functie log(bericht, niveau) { }; log("start", %s); print("b"); log(1, 2)' % H0),
         ("bnd:empty-fn-with-params-nested-block", "functie f(a, b, c) { { } }; functie g(a) { { { } } }; [f(1, 2, %s), g(0)]" % H0),
@@ -545,6 +580,8 @@ def fam_loop_bodies(max_len=2, contexts=("top", "fn")):
         "EXIT",
         "zolang nee { acc += 100; };",
         "zolang ja { acc += 1; stop; };",
+        "als i == %s { };" % H1,
+        "als i > %s { acc += 1; } anders { };" % H1,
     ]
     out = []
     for ctx in contexts:
@@ -746,6 +783,13 @@ def fam_pairs():
         out.append(("pair:cond-inline-vs-var:zolang:" + cn, pre + "stel n = 0; zolang %s { n += 1; als n > 1 { stop; } }; [t, n]" % c,
                     pre + "stel n = 0; stel c = %s; zolang c { n += 1; als n > 1 { stop; }; c = %s; }; [t, n]" % (c, c)))
         out.append(("pair:cond-inline-vs-var:chain:" + cn, pre + "als %s < 0 { 1 } anders als %s { 2 } anders { 3 }" % (H0, c), pre + "stel c = %s; als %s < 0 { 1 } anders als c { 2 } anders { 3 }" % (c, H0)))
+    # a (negated) literal next to an "equal" literal elsewhere in the program: 0.0 / -0.0, 1.5 / -1.5, 0 / -0, 7 / -7
+    signed = [("float-zero", "[1.0 / -0.0, 4.0 * -0.0 == 0.0, 1.0 / (0.0 - 0.0)]", "stel nul = 0.0; "), ("float-zero-rev", "[1.0 / 0.0, 1.0 / (0.0 * 1.0)]", "stel min = -0.0; "),
+              ("float", "[-1.5 + 1.0, 2.0 * -1.5, 1.5 - -1.5]", "stel p = 1.5; "), ("float-rev", "[1.5 + 1.0, 2.0 * 1.5]", "stel q = -1.5; "),
+              ("int-zero", "[-0 + %s, 5 * -0, 0 - -0]" % H0, "stel z = 0; "), ("int", "[-7 + %s, -7 * 2, 7 - -7]" % H0, "stel s = 7; "), ("int-rev", "[7 + %s, 7 * 2]" % H0, "stel t = -7; ")]
+    for nm, prog, pre in signed:
+        out.append(("pair:signed-literal-elsewhere:" + nm, prog, pre + prog))
+        out.append(("pair:signed-literal-elsewhere-fn:" + nm, prog, "functie hoofd__() { %s%s }; hoofd__()" % (pre, prog)))
     # literal operand vs variable holding it, inside richer expressions
     exprs = ["x * 2 + %s" % H1, "(%s - x) %% 7" % H1, "[x, %s, x + %s]" % (H1, H1), "als x < %s { x } anders { %s }" % (H1, H1),
              "x / %s + x %% %s" % (H1, H1)]
